@@ -199,14 +199,17 @@ struct W {
     if (auto* s = vk::pending_read()) vk::complete_read(s, nullptr, 0, ec);
     out_n = out_pos = 0;
   }
-  // ... in one of the ways a TCP connection dies: reset, orderly close by the peer (eof on read, broken pipe on write), abort
-  void drop_connection_any(int kind = 3) {
-    switch (kind == 3 ? (int)vk_choose(3) : kind) {
+  // ... in one of the ways a TCP connection dies: reset, orderly close by the peer (eof on read, broken pipe on write), abort,
+  // or noticed by the reading side only while a write is still in flight (the client's reconnect then closes the old stream, which aborts that write)
+  void drop_connection_any(int kind = 9) {
+    switch (kind == 9 ? (int)vk_choose(4) : kind) {
       case 0: drop_connection(asio::error::connection_reset); break;
       case 1: if (auto* s = vk::pending_write()) { vk::complete_write(s, 0, asio::error::broken_pipe); writes_completed++; }
               if (auto* s = vk::pending_read()) vk::complete_read(s, nullptr, 0, asio::error::eof);
               out_n = out_pos = 0; break;
-      default: drop_connection(asio::error::connection_aborted); break;
+      case 2: drop_connection(asio::error::connection_aborted); break;
+      default: if (auto* s = vk::pending_read()) { if (vk::pending_write()) writes_completed++; vk::complete_read(s, nullptr, 0, asio::error::connection_reset); } else drop_connection(asio::error::connection_reset);
+               out_n = out_pos = 0; break;
     }
   }
   // last packet of a type / all packets
